@@ -616,7 +616,7 @@ var c09HtmlTagLike = regexp.MustCompile(`<[/!]?-?$`)
 var c09HtmlExplains = map[string]string{
 	"K-C09-HTML-1": "text tag extra comment", "K-C09-HTML-2": "raw text tag extra", "K-C09-HTML-3": "text tag extra comment",
 	"K-C09-HTML-4": "text tag extra", "K-C09-HTML-5": "text tag extra", "K-C09-HTML-6": "raw text tag extra comment", "K-C09-HTML-7": "raw text tag extra comment",
-	"K-C09-HTML-8": "raw text tag extra comment secondpass", "K-C09-HTML-9": "raw text tag extra secondpass", "K-C03-8": "text", "K-C03-11": "raw text tag extra", "OBS-embedded-ref": "embedded",
+	"K-C09-HTML-10": "text tag extra comment raw", "K-C09-HTML-8": "raw text tag extra comment secondpass", "K-C09-HTML-9": "raw text tag extra secondpass", "K-C03-8": "text", "K-C03-11": "raw text tag extra", "OBS-embedded-ref": "embedded",
 }
 
 // c09HtmlKnownClasses names the known findings (of this slice and of C03) whose narrow trigger the generated document
@@ -644,6 +644,9 @@ func c09HtmlKnownClasses(in []byte, items []c09HtmlItem) (ks []string) {
 			ks = append(ks, "K-C09-HTML-6")
 			break
 		}
+	}
+	if has("<&") {
+		ks = append(ks, "K-C09-HTML-10")
 	}
 	if c09HtmlEndQuoted.Match(in) {
 		ks = append(ks, "K-C09-HTML-7")
@@ -1136,7 +1139,7 @@ var c09HtmlCommentPieces = []string{"<!-- a -->", "<!---->", "<!-- a -- b -->", 
 	"<!--[if IE]><![endif]-->", "<!-- a > b -->", "<!--a--->", "<!-- - -->", "<!--[if IE]><a href=\"x\">  l  </a> <!-- in --> <![endif]-->", "<!-->", "<!--->", "<!DOCTYPE html>", "<![CDATA[ x ]]>", "<!--[if gte mso 9]><xml><o:x>1</o:x></xml><![endif]-->", "</>", "<!--->x-->"}
 
 var c09HtmlTextPieces = []string{"1 < 2", "a<b", "a &lt; b", "&lt;b", "&lt;/b", "&lt;!--", "&lt;?", "<3", "a<", "&amp;lt;", "&amp;amp;", "&amp;#60;", "&", "&a", "&amp", "&ampx", "&lt", "&ltx", "&amp;", "&#60;b", "&#x3c;/p",
-	"x &gt; y", "&quot;q&quot;", "a&nbsp;b", "&copy;", "<<b>>", "< b", "<-", "<=", "&amp;&amp;", "a & b", "&amp;copy;", "&#38;lt;", "&lt;&gt;", "if (a&lt;b) {", "<1>", "a<!b", "<é"}
+	"x &gt; y", "&quot;q&quot;", "a&nbsp;b", "&copy;", "<<b>>", "< b", "<-", "<=", "&amp;&amp;", "a & b", "&amp;copy;", "&#38;lt;", "&lt;&gt;", "if (a&lt;b) {", "<1>", "a<!b", "<é", "<&#98;>", "<&#47;b>", "<&#33;--", "<&amp;", "<&#50;", "<&sol;p>"}
 var c09HtmlBoundaryPieces = []string{"&am<!-- -->p;", "&amp;<b>lt;</b>", "&#6<!---->0;", "&l<!-- c -->t;", "&amp<!-- -->;", "&lt;<!-- -->b", "<<!-- -->b>", "a<!-- -->b", "a <!-- --> b", "&amp;<!---->amp;"}
 
 func c09HtmlGenText(r *h.RNG) string {
@@ -1409,6 +1412,93 @@ func c09HtmlStages(c *Ctx) error {
 		}
 		if err := c09HtmlEval(c, st, cases); err != nil {
 			return err
+		}
+		st.End()
+	}
+
+	// (4) the theorem's guard on real token streams
+	{
+		st := c.R.StartStage("c09-html-model", "documents (generated elements and composed documents <= 20 KB, tests/html/corpus, html_test.go inputs) lexed by the REAL lexer/TokenBuffer (c03Lex), random Keep* masks, no sub-minifier: model.c09.html.walk = model output + the decidable guard of html_output_retokenises_partial + whether the standard's tokenizer reads the output as the intended pieces; the model output must equal the real html.Minify output (C03 owns that comparison: counted, not reported here) and guard ⇒ re-tokenisation must hold (a counter-instance would contradict the theorem: diff); distribution = which kind of step first leaves the guard; non-trivial = the guard holds")
+		type mc struct {
+			doc  []byte
+			mask int
+			out  []byte
+		}
+		var cases []mc
+		var lines []string
+		var docs [][]byte
+		n := c.N(500, 20000) * wide
+		for i := 0; i < n; i++ {
+			switch r.Intn(4) {
+			case 0:
+				docs = append(docs, c09HtmlGenDoc(r, 300+r.Intn(3000)))
+			case 1:
+				docs = append(docs, []byte("<div>"+c09HtmlGenRaw(r)+c09HtmlGenText(r)+"</div>"))
+			default:
+				docs = append(docs, []byte(c09HtmlGenElement(r, 2)))
+			}
+		}
+		_, cdocs := c09HtmlCorpus(c.Repo, 20000)
+		docs = append(docs, cdocs...)
+		_, tdocs := c03TestInputs(c.Repo)
+		for _, d := range tdocs {
+			if len(d) <= 20000 {
+				docs = append(docs, d)
+			}
+		}
+		for _, d := range docs {
+			toks, lexErr := c03Lex(d)
+			if lexErr {
+				continue
+			}
+			mask := c09HtmlMask(r)
+			o := c03OptsOf(mask)
+			out, err, crash := c03RunReal(d, o, false)
+			if err != nil || crash != "" {
+				continue
+			}
+			cases = append(cases, mc{d, mask, out})
+			lines = append(lines, "model.c09.html.walk "+h.Int(int64(mask))+" "+h.Int(0)+" "+c03Ext(toks, o, false)+" "+c03EncodeToks(toks))
+		}
+		rep, err := h.Eval(lines)
+		if err != nil {
+			return err
+		}
+		for i, cs := range cases {
+			key := h.Q(trunc(cs.doc, 200)) + " " + c03OptsOf(cs.mask).String()
+			b, ok, msg := h.DecodeReply(rep[i])
+			if !ok {
+				st.Count(key, false)
+				if strings.Contains(msg, "ext missing") {
+					st.Tag("outside=ext-missing")
+				} else {
+					st.Tag("outside=model-error")
+				}
+				continue
+			}
+			f := h.DecodeListReply(b)
+			if len(f) != 4 {
+				return fmt.Errorf("model.c09.html.walk: bad reply %q", b)
+			}
+			guard, holds := string(f[1]) == "1", string(f[2]) == "1"
+			st.Count(key, guard)
+			if !bytes.Equal(f[0], cs.out) {
+				st.Tag("model!=impl (C03's comparison)")
+				continue
+			}
+			if guard {
+				st.Tag("guard=holds")
+			} else {
+				st.Tag("guard-left-at=" + string(f[3]))
+			}
+			if holds {
+				st.Tag("retokenises=yes")
+			} else {
+				st.Tag("retokenises=no")
+			}
+			if guard && !holds {
+				c.R.Add(h.Finding{Stage: st.Name, Kind: "diff", What: "guard of html_output_retokenises_partial holds but the output does not re-tokenise to the intended pieces (contradicts the theorem: driver or encoding defect)", Input: key, Hex: h.Hex(cs.doc)})
+			}
 		}
 		st.End()
 	}
